@@ -19,11 +19,22 @@ Inductive xvalue :=           (* values as expressions see them: program values 
 | XBool (b : bool)
 | XNum (n : N).
 
+(* {{ rec }} prints the Python dict, autoescaped: {&#x27;k&#x27;: &#x27;v&#x27;} (string fields only) *)
+Definition print_field (kv : str * value) : str :=
+  s2n "&#x27;" ++ fst kv ++ s2n "&#x27;: " ++
+  match snd kv with VStr s => s2n "&#x27;" ++ s ++ s2n "&#x27;" | _ => s2n "<nested>" end.
+Fixpoint join_fields (l : list (str * value)) : str :=
+  match l with
+  | [] => []
+  | [kv] => print_field kv
+  | kv :: r => print_field kv ++ s2n ", " ++ join_fields r
+  end.
+
 Definition print_x (x : xvalue) : str :=
   match x with
   | XV (VStr s) => s
   | XV (VList _) => s2n "<list>"
-  | XV (VRec _) => s2n "<rec>"
+  | XV (VRec fs) => s2n "{" ++ join_fields fs ++ s2n "}"
   | XBool true => s2n "True"
   | XBool false => s2n "False"
   | XNum n => num_str n
